@@ -97,13 +97,20 @@ def classify(roles, f, unit, restrict, v1, v2, to_string_key, str_to_number_key)
     other_cmp = [c for c in cmps if c[3].get("opty") not in ("f64", "f32", "bool") and c[3]["op"] != "Eq"]
     as_f64 = [x for x in calls if x[3]["path"] == "serde_json::Number::as_f64"]
     int_acc = [x for x in calls if re.search(r"serde_json::Number::(as_i64|as_u64|is_\w+)$", x[3]["path"])]
-    num_eq = [x for x in calls if re.search(r"<serde_json::(Number|Value) as std::cmp::PartialEq>::(eq|ne)$", x[3]["path"])]
+    def _spelling(x):
+        if re.search(r"<serde_json::(Number|Value) as std::cmp::PartialEq>::(eq|ne)$", x[3]["path"]):
+            return True
+        for fw in (x[2].get("callee") or {}).get("fwd", []):
+            if re.search(r"<serde_json::(Number|Value) as std::cmp::PartialEq>::(eq|ne)$", fw["path"]):
+                return True
+        return False
+    num_eq = [x for x in calls if _spelling(x)]
     s2n = [x for x in calls if str_to_number_key and x[3].get("key") == str_to_number_key]
     streq = [x for x in calls if re.search(r"PartialEq.*::(eq|ne)$", x[3]["path"]) and re.search(r"String|str", x[3].get("full") or x[3]["path"]) and not re.search(r"serde_json::(Number|Value) as", x[3]["path"])]
     booleq = [c for c in cmps if c[3].get("opty") == "bool"] + [x for x in calls if re.search(r"PartialEq.*::(eq|ne)$", x[3]["path"]) and "bool" in (x[3].get("full") or "")]
     o.detail.update({"int_accessors": [x[3]["path"] for x in int_acc], "value_eq": [x[3]["path"] for x in num_eq], "ops": sorted({c[3]["op"] for c in cmps})})
     if num_eq:
-        o.kind = "SPELLING-EQ(%s)" % num_eq[0][3]["path"].split(" as ")[0].strip("<")
+        o.kind = "SPELLING-EQ"
     elif int_acc and feq:
         o.kind = "MIXED-INT/FLOAT"
     elif int_acc:
